@@ -218,18 +218,9 @@ func runC10(c *Ctx) {
 							if !ok || !lk.CommaOk || lk.Index != mu.Key {
 								continue
 							}
-							for _, r := range *lk.Referrers() {
-								ex, ok := r.(*ssa.Extract)
-								if !ok || ex.Index != 1 {
-									continue
-								}
-								for _, rr := range *ex.Referrers() {
-									if iff, ok := rr.(*ssa.If); ok {
-										notFound := iff.Block().Succs[1]
-										if notFound == b || notFound.Dominates(b) {
-											guards++
-										}
-									}
+							for _, t := range okTestsOf(lk) {
+								if t.notFound == b || t.notFound.Dominates(b) {
+									guards++
 								}
 							}
 						}
